@@ -11,8 +11,8 @@ static std::string F(const char* fmt, ...) {
 }
 static int sidOf(uint8_t s) { return s == NOID ? -1 : int(s); }
 static bool instDeadAt(const Analysis& A, uint32_t i) { return A.ann[i].dead != 0; }
-static bool isBare(const Info& f, uint8_t s) { return s != NOID && s < 64 && ((f.bare >> s) & 1); }
-static int injOf(const Info& f, uint8_t s) { return s == NOID ? f.headInj : (s < 64 ? f.inj[s] : 0); }
+static bool isBare(const Info& f, uint8_t s) { return s != NOID && s < MASK_BITS && ((f.bare >> s) & 1); }
+static int injOf(const Info& f, uint8_t s) { return s == NOID ? f.headInj : (s < MASK_BITS ? f.inj[s] : 0); }
 static bool sameSeq(const std::vector<TaskV>& a, const std::vector<TaskV>& b) {
 	if (a.size() != b.size()) return false;
 	for (size_t i = 0; i < a.size(); ++i) if (!(a[i] == b[i])) return false;
@@ -42,8 +42,8 @@ static void c01(const Trace& t, const Analysis& A, Verdict& V) {
 		}
 		if (s.dead || !s.constructed) continue;
 		if (hasSnap(e)) {
-			const uint64_t expectMask = e.mAct == NOID ? 0 : (e.mAct < 64 ? (1ull << e.mAct) : 0);
-			if (e.mActMask != expectMask) V.add(1, i, F("isActive(id) disagrees with activeStateId(): active=%d mask=%llx", sidOf(e.mAct), (unsigned long long) e.mActMask));
+			const Mask expectMask = e.mAct == NOID ? Mask(0) : (e.mAct < MASK_BITS ? (Mask(1) << e.mAct) : Mask(0));
+			if (e.mActMask != expectMask) V.add(1, i, F("isActive(id) disagrees with activeStateId(): active=%d mask=%llx:%016llx", sidOf(e.mAct), (unsigned long long) (e.mActMask >> 64), (unsigned long long) e.mActMask));
 			if (!e.tmplOk) V.add(1, i, "isActive<T>() / stateId<T>() disagree with isActive(id) / the declaration order");
 			if (e.mAct != NOID && e.mAct >= f.N) V.add(1, i, F("activeStateId()=%u out of range", e.mAct));
 			if (f.manual && e.mManual != 2 && e.mManual != (e.mAct != NOID ? 1 : 0)) V.add(1, i, "manual isActive() disagrees with activeStateId()");
